@@ -782,6 +782,14 @@ priv_conn_check_ordinary_check (NiceAgent *agent, NiceStream *stream)
     pair = priv_conn_check_find_next_waiting (stream->conncheck_list);
   }
 
+  /* A check cannot be formed before the remote credentials are known,
+   * and they may be signalled after the remote candidates: like incoming
+   * checks, postpone it until conn_check_remote_credentials_set()
+   * instead of failing the pair for good.
+   */
+  if (pair && pair->remote->username == NULL && stream->remote_ufrag[0] == 0)
+    return FALSE;
+
   if (pair) {
     stun_sent = priv_conn_check_initiate (agent, pair);
     priv_print_conn_check_lists (agent, G_STRFUNC,
@@ -2004,6 +2012,10 @@ void conn_check_remote_credentials_set(NiceAgent *agent, NiceStream *stream)
 
     conn_check_remote_candidates_set(agent, stream, component);
   }
+
+  /* the checks postponed for lack of credentials can be sent now */
+  if (stream->conncheck_list != NULL)
+    priv_schedule_next (agent);
 }
 
 /*
